@@ -1126,6 +1126,10 @@ var c15OpPrefixes = []string{".", "..", "...", "=", "= ", "= <", "= <-", "==", "
 	"+", "++", "+=", "-", "--", "-=", "*", "*=", "/", "/=", "//", "/*", "/**", "/*/", ">", ">>", ">=", ":", "%", "^", ",", ";", "(", "[", "{", ")", "]", "}"}
 
 func c15Families() []c15Family {
+	return append(c15ScanFamilies(), c15TypeFamilies()...) // type-expression families: c15_types.go
+}
+
+func c15ScanFamilies() []c15Family {
 	return []c15Family{
 		{"unterminated-every-offset", func() []string {
 			return c15Prefixes(
@@ -1565,15 +1569,16 @@ func init() {
 	wk.Register(&wk.Engine{
 		ID: "C15",
 		Plan: func(tier string) fw.Plan {
-			nFuzz, nPairs, nRace := 1200, 400, 64
+			nFuzz, nPairs, nRace, nTypes := 1200, 400, 64, 300
 			if tier == "thorough" {
-				nFuzz, nPairs, nRace = 40000, 10000, 1200
+				nFuzz, nPairs, nRace, nTypes = 40000, 10000, 1200, 10000
 			}
 			nCorpus := len(corpus.Scripts())
 			return fw.Plan{
 				Level: "exploration",
 				Rule: "every input is parsed twice by parser.ParseSrc (panics observed, CPU/allocation budget per input) and judged: result is (tree,nil) or (_,*parser.Error) with 1<=line<=count('\\n')+1 and 1<=column<=len(line)+1; the two parses — separated by a parse of a fixed text of the opposite outcome — agree (dump with positions / error message+position), and so does a third parse of sampled texts at the end of the case, after all its other inputs. " +
-					"phase scan: deterministic scanner-bookkeeping families (unterminated strings/raw strings/comments at every offset, /*…*/ with runs of *, CR/LF mixes, non-ASCII letters, invalid UTF-8, NUL, brackets/blocks/unary/chains nested to 20000, 64 KB identifiers/numbers/strings/comments/runs, operators split by EOF, lone quotes, comments at EOF, all bracket strings of length<=4). " +
+					"phase scan: deterministic scanner-bookkeeping families (unterminated strings/raw strings/comments at every offset, /*…*/ with runs of *, CR/LF mixes, non-ASCII letters, invalid UTF-8, NUL, brackets/blocks/unary/chains nested to 20000, 64 KB identifiers/numbers/strings/comments/runs, operators split by EOF, lone quotes, comments at EOF, all bracket strings of length<=4; type expressions: every type form (*T, []T, [][]T, chan T, map[..]T, map[T].., struct{..T}, struct over several lines, T.B) applied to every type form to depth 3 (depth 4 over one leaf) inside new()/make(), to depth 2 inside make(T,len[,cap]), typed array and map literals, make(type ..) and nested uses, plus every single-token deletion/duplication/junk insertion and every truncation of the depth<=2 types). " +
+					"phase types: PRNG type expressions (all forms, blanks/newlines where the grammar allows them, a dotted path after every form, depth<=5) at every use site of a type (new, make with 1-3 arguments, make(type ..), typed array/map literals, as element of pointer/slice/chan/map/struct types, nested in calls/operators/statements), one third with 1-2 token edits of the type (delete/duplicate/swap/replace/truncate/insert); the texts that parse are composed pairwise as in phase pairs. " +
 					"phase corpus: every script of the repository's corpus, every prefix and every suffix of it, CRLF/CR variants. phase fuzz: token soup, byte soup, grammar-generated programs, 1-3 mutations of a corpus script (delete/duplicate/swap/replace/truncate/bracket insert+remove/splice/insert byte/newline variation/junk). " +
 					"phase edgepairs: complete square of hand-written valid edge texts and edge x corpus both ways; phase pairs: PRNG pairs (corpus, generated, mutated-but-valid, edge) — A, B parse alone => A+\"\\n\"+B parses to stmts(A)++stmts(B), compared statement by statement by reflective dump with B's lines shifted by count('\\n',A)+1. " +
 					"phase race (-race build): 8 goroutines parse the same text simultaneously and different texts interleaved; every result equals the sequential one. " +
@@ -1591,6 +1596,7 @@ func init() {
 					{Name: "edgepairs", Cases: len(c15EdgeTexts), Chunk: 8, TimeoutS: 900},
 					{Name: "fuzz", Cases: nFuzz, Chunk: 25, TimeoutS: 900},
 					{Name: "pairs", Cases: nPairs, Chunk: 25, TimeoutS: 900},
+					{Name: "types", Cases: nTypes, Chunk: 25, TimeoutS: 900},
 					{Name: "race", Race: true, Cases: nRace, Chunk: 4, TimeoutS: 1200},
 				},
 			}
@@ -1614,6 +1620,8 @@ func init() {
 				c15RunFuzz(c)
 			case "pairs":
 				c15RunPairs(c, 50)
+			case "types":
+				c15RunTypes(c)
 			case "race":
 				c15RunRace(c)
 			}
